@@ -629,6 +629,20 @@ def cancel_oracle(obs, x, how, not_started=False, targeted=True):
             if dep:
                 out.append(V(f'{x.label}: the cancel call ({how}) returned while CreateMultipartUpload was still in flight, yet '
                              f'{len(dep)} dependent request(s) ({dep[0]["op"]} ...) were issued afterwards', **mech, sym='dependent-request-after-cancel'))
+    # an upload body is read by the transport through the library's stream, which checks for the cancellation on every read: once the
+    # cancel call has returned at most the read in flight may still deliver data (only judged where the transport reads the
+    # library's object directly, i.e. not through botocore's buffering aws-chunked wrapper)
+    if ce and targeted and x.kind == 'upload':
+        late = [e for e in obs.events if e['kind'] == 'wire.read' and e.get('label') == x.label and e.get('chunked') is False
+                and e['n'] > ce[0]['n'] and e.get('nbytes', 0) > 0]
+        by_call = {}
+        for e in late:
+            by_call.setdefault(e['call_id'], []).append(e)
+        worst = max(by_call.values(), key=len, default=[])
+        if len(worst) > 1:
+            out.append(V(f'{x.label}: {len(worst)} further reads ({sum(e["nbytes"] for e in worst)} bytes) of the body of {worst[0]["key"]} were '
+                         f'delivered to the transport after the cancel call ({how}) had returned', **mech, sym='body-sent-after-cancel',
+                         bandwidth_limited=bool(getattr(obs.config, 'max_bandwidth', None))))
     if not_started:
         s3 = [e for e in obs.events if e['kind'] == 'api.begin' and e.get('label') == x.label]
         if s3:
